@@ -6,6 +6,7 @@ import (
 	"context"
 	"errors"
 	"fmt"
+	"os"
 	"strconv"
 	"sync"
 	"sync/atomic"
@@ -217,8 +218,12 @@ func genTab(r *kit.Rand, markBase *int) [][]act {
 }
 
 func newActive(name string, fn f1testing.ScenarioFn, stats *progress.Stats) *workers.ActiveScenario {
+	return newActiveOf(&scenarios.Scenario{Name: name, ScenarioFn: fn}, stats)
+}
+
+// newActiveOf runs a registered scenario object: a second execution in one process gets the same object
+func newActiveOf(sc *scenarios.Scenario, stats *progress.Stats) *workers.ActiveScenario {
 	m := runkit.NewMetrics(nil, true)
-	sc := &scenarios.Scenario{Name: name, ScenarioFn: fn}
 	return workers.NewActiveScenario(sc, m, stats, log.NewDiscardLogger(), logrus.New())
 }
 
@@ -477,10 +482,11 @@ func TestC20(t *testing.T) {
 		}
 		stats := &progress.Stats{}
 		combined := f1.CombineScenarios(fns...)
+		registered := &scenarios.Scenario{Name: "c20", ScenarioFn: combined}
 		if r.Chance(40) {
 			// the same combined scenario value is set up more than once in a process (a second
 			// execution, or registered under two names): every setup stands on its own
-			pre := newActive("c20pre", combined, &progress.Stats{})
+			pre := newActiveOf(registered, &progress.Stats{})
 			pre.Setup()
 			if !pre.Failed() && r.Bool() {
 				st0 := pre.VerifNewIterationState()
@@ -495,7 +501,7 @@ func TestC20(t *testing.T) {
 		} else {
 			o.Count("setups", "first setup")
 		}
-		as := newActive("c20", combined, stats)
+		as := newActiveOf(registered, stats)
 		as.Setup()
 		setupEvents := append([]int64(nil), logv...)
 		setupFailed := as.Failed()
@@ -537,5 +543,67 @@ func TestC20(t *testing.T) {
 		o.Count("components", kit.I(nc))
 		o.Case("combine_obs", []string{encTab(p.tab), kit.List(items...), kit.I(k)},
 			"ok "+kit.List(kit.List(kit.Ints(setupEvents), kit.B(setupFailed)), kit.List(kit.Ints(logv), kit.List(outcomes...))), tags...)
+	}
+}
+
+// ---------------------------------------------------------------- C06: per-iteration cleanups when an iteration outlives its stage
+
+// A config-file run starts a pool per stage; an iteration still running when the next stage
+// starts must keep its own cleanups: each runs exactly once, after its body.
+func TestC06FileCleanups(t *testing.T) {
+	o := kit.Get()
+	defer o.Close()
+	r := kit.NewRand(kit.Seed() + 67)
+	dir := t.TempDir()
+	for i := 0; i < kit.N(2, 14); i++ {
+		var mu sync.Mutex
+		started := map[string]int{}
+		cleaned := map[string]int{}
+		early := 0 // cleanups that ran before their body had finished
+		finished := map[string]bool{}
+		scenario := func(*f1testing.T) f1testing.RunFn {
+			return func(t *f1testing.T) {
+				id := t.Iteration
+				mu.Lock()
+				started[id]++
+				mu.Unlock()
+				t.Cleanup(func() {
+					mu.Lock()
+					cleaned[id]++
+					if !finished[id] {
+						early++
+					}
+					mu.Unlock()
+				})
+				n, _ := strconv.Atoi(id)
+				time.Sleep(time.Duration(n%4) * 25 * time.Millisecond)
+				mu.Lock()
+				finished[id] = true
+				mu.Unlock()
+			}
+		}
+		_, yaml := runkit.QuickMode("file", r.Intn(6))
+		path := dir + "/c06f_" + strconv.Itoa(i) + ".yaml"
+		_ = os.WriteFile(path, []byte(yaml), 0o600)
+		out, hung, dump := runkit.DoTimeout(runkit.Config{Mode: "file", FileArg: path, Scenario: scenario, Ctx: context.Background(),
+			Opts: options.RunOptions{}}, 60*time.Second)
+		if hung {
+			o.Fail("run-hung", "file run did not return: "+dump[:min(len(dump), 2000)])
+			continue
+		}
+		if out.Err != nil {
+			o.Fail("run-error", fmt.Sprintf("file run failed: %v", out.Err))
+			continue
+		}
+		mu.Lock()
+		var bodyRuns, cleanupRuns []int64
+		for _, id := range kit.SortedKeys(started) {
+			bodyRuns = append(bodyRuns, int64(started[id]))
+			cleanupRuns = append(cleanupRuns, int64(cleaned[id]))
+		}
+		e := early
+		mu.Unlock()
+		o.Count("file-run-iterations", kit.Bucket(int64(len(bodyRuns))))
+		o.Case("cleanups_once_ok", []string{kit.Ints(bodyRuns), kit.Ints(cleanupRuns), kit.I(e)}, "T", "file-cleanups", "nt")
 	}
 }
